@@ -788,3 +788,145 @@ Proof.
   { intros Hd. apply pieces_lines_noesc, Hne, Hd. }
   exists o'. split; [exact H1|]. split; [exact H2|]. split; [exact H3|exact H4].
 Qed.
+
+(* ------------------------------------------------------------------ 4. render never fails *)
+(* once the lines exist, writing them cannot fail: the only way ExceptionTrace.render can raise is tokenize *)
+Theorem render_never_fails_l sty c simple o x ls :
+  out_ok sty o -> resolvable sty st_error -> resolvable sty st_b ->
+  render_lines c simple (o_indent o) x = Ok ls ->
+  (decorated o = true -> Forall (fun wl => no_esc (snd wl)) ls) ->
+  exists bytes, render c simple o x = Ok bytes.
+Proof.
+  intros Ho Herr Hb HL Hne. unfold render. rewrite HL. cbn [bind].
+  destruct (write_lines_good sty ls o Ho (render_lines_good sty Herr Hb c simple _ x ls HL) Hne) as (o' & HW & _).
+  rewrite HW. cbn [bind]. eexists. reflexivity.
+Qed.
+(* undecorated: the bytes are the shown texts of the lines' (indented) pieces, line after line *)
+Theorem render_plain_bytes_l sty c simple o x ls :
+  out_ok sty o -> resolvable sty st_error -> resolvable sty st_b -> decorated o = false ->
+  render_lines c simple (o_indent o) x = Ok ls ->
+  exists pls, ls = map pline_w pls /\ Forall (fun p => pieces_ok sty (snd p)) pls /\
+    render c simple o x = Ok (o_buf o ++ flat_map shown_line pls).
+Proof.
+  intros Ho Herr Hb Hd HL. destruct (good_lines_pieces sty ls (render_lines_good sty Herr Hb c simple _ x ls HL)) as (pls & E & Hpls).
+  exists pls. split; [exact E|]. split; [exact Hpls|]. unfold render. rewrite HL. cbn [bind]. subst ls.
+  destruct (write_lines_pieces sty pls o Ho Hpls) as (o' & HW & _ & _ & _ & HB); [rewrite Hd; discriminate|].
+  rewrite HW. cbn [bind]. now rewrite (HB Hd).
+Qed.
+
+(* ---- when render_lines itself is Ok: exactly when tokenize did not fail where the renderer needs it ---- *)
+Lemma bind_ok {X Y} (r : res X) (f : X -> res Y) : (exists y, bind r f = Ok y) <-> exists x, r = Ok x /\ exists y, f x = Ok y.
+Proof.
+  split.
+  - intros (y & H). destruct r as [x|e]; cbn [bind] in H; [|discriminate]. exists x. split; [reflexivity|]. exists y. exact H.
+  - intros (x & -> & y & H). exists y. exact H.
+Qed.
+Definition dflt_frame : frame :=
+  {| f_file := []; f_ignored := false; f_lineno := 0; f_func := []; f_line := []; f_content := TokError; f_linetoks := TokError |}.
+Definition tok_ok (t : tokres) : Prop := exists toks, t = TokOk toks.
+(* the line(s) under a listed frame: at debug verbosity the file must tokenize; below it the frame's own line may
+   fail with TokenError (it is then shown unhighlighted) but not otherwise, and a token stream must yield a line *)
+Definition code_ok (c : tcfg) (f : frame) : Prop :=
+  if t_debug c then tok_ok (f_content f)
+  else match f_linetoks f with TokOk toks => split_to_lines toks <> [] | TokError => True | TokOtherExc => False end.
+Definition trace_printed (c : tcfg) (fs : list frame) : bool := t_verbose c && negb (zlen (kept_frames c fs) - 1 =? 0)%Z.
+Definition render_cond (c : tcfg) (x : exn_case) : Prop :=
+  x_frames x <> [] ->
+  tok_ok (f_content (last (x_frames x) dflt_frame)) /\
+  (trace_printed c (x_frames x) = true -> Forall (code_ok c) (trace_frames c (x_frames x))).
+
+Lemma snippet_of_ok c t line before after : (exists ls, snippet_of c t line before after = Ok ls) <-> tok_ok t.
+Proof.
+  unfold snippet_of, tok_ok. destruct t as [toks| |]; split.
+  - intros _. eexists. reflexivity.
+  - intros _. eexists. reflexivity.
+  - intros (ls & H). discriminate.
+  - intros (toks & H). discriminate.
+  - intros (ls & H). discriminate.
+  - intros (toks & H). discriminate.
+Qed.
+Lemma frame_code_ok c ind w f : (exists ls, frame_code c ind w f = Ok ls) <-> code_ok c f.
+Proof.
+  unfold frame_code, code_ok. destruct (t_debug c).
+  - rewrite bind_ok, <- (snippet_of_ok c (f_content f) (f_lineno f) 2 2). split.
+    + intros (ls & H & _). exists ls. exact H.
+    + intros (ls & H). exists ls. split; [exact H|]. eexists. reflexivity.
+  - rewrite bind_ok. destruct (f_linetoks f) as [toks| |].
+    + destruct (split_to_lines toks) as [|l r]; split.
+      * intros (x & H & _). discriminate.
+      * intros H. congruence.
+      * intros _. discriminate.
+      * intros _. eexists. split; [reflexivity|]. eexists. reflexivity.
+    + split; [intros _; exact I|]. intros _. eexists. split; [reflexivity|]. eexists. reflexivity.
+    + split; [intros (x & H & _); discriminate|intros []].
+Qed.
+Lemma frames_lines_ok c ind w : forall fs i, (exists r, frames_lines c ind w fs i = Ok r) <-> Forall (code_ok c) fs.
+Proof.
+  induction fs as [|f fs IH]; intros i; cbn [frames_lines].
+  - split; [intros _; constructor|intros _; eexists; reflexivity].
+  - rewrite bind_ok. split.
+    + intros (code & HC & HR). apply bind_ok in HR. destruct HR as (rest & HR & _).
+      constructor; [apply (frame_code_ok c ind w f); exists code; exact HC|apply (IH (i - 1)%Z); exists rest; exact HR].
+    + intros H. inversion H as [|? ? Hf Hfs]; subst. apply (frame_code_ok c ind w f) in Hf. destruct Hf as (code & HC).
+      apply (IH (i - 1)%Z) in Hfs. destruct Hfs as (rest & HR). exists code. split; [exact HC|]. rewrite HR. cbn [bind]. eexists. reflexivity.
+Qed.
+Lemma colls_lines_ok c ind w : forall cs i, (exists r, colls_lines c ind w cs i = Ok r) <-> Forall (code_ok c) (flat_map c_frames cs).
+Proof.
+  induction cs as [|cl cs IH]; intros i; cbn [colls_lines flat_map].
+  - split; [intros _; constructor|intros _; eexists; reflexivity].
+  - rewrite bind_ok, Forall_app. split.
+    + intros (fl & HF & HR). apply bind_ok in HR. destruct HR as (rest & HR & _).
+      split; [eapply frames_lines_ok; exists fl; exact HF|eapply IH; exists rest; exact HR].
+    + intros [H1 H2]. eapply frames_lines_ok in H1. destruct H1 as (fl & HF). exists fl. split; [exact HF|].
+      eapply IH in H2. destruct H2 as (rest & HR). rewrite HR. cbn [bind]. eexists. reflexivity.
+Qed.
+Lemma render_trace_ok c ind fs :
+  (exists r, render_trace c ind fs = Ok r) <-> (trace_printed c fs = true -> Forall (code_ok c) (trace_frames c fs)).
+Proof.
+  unfold render_trace, trace_printed, trace_frames. destruct (t_verbose c && negb (zlen (kept_frames c fs) - 1 =? 0)%Z).
+  - rewrite bind_ok. split.
+    + intros (ls & H & _) _. eapply colls_lines_ok. exists ls. exact H.
+    + intros H. specialize (H eq_refl). eapply colls_lines_ok in H. destruct H as (ls & H). exists ls. split; [exact H|]. eexists. reflexivity.
+  - split; [intros _ H; discriminate|intros _; eexists; reflexivity].
+Qed.
+Lemma render_snippet_ok c ind f : (exists r, render_snippet c ind f = Ok r) <-> tok_ok (f_content f).
+Proof.
+  unfold render_snippet. rewrite bind_ok, <- (snippet_of_ok c (f_content f) (f_lineno f) 4 4). split.
+  - intros (ls & H & _). exists ls. exact H.
+  - intros (ls & H). exists ls. split; [exact H|]. eexists. reflexivity.
+Qed.
+Theorem render_exception_ok c ind x : (exists ls, render_exception c ind x = Ok ls) <-> render_cond c x.
+Proof.
+  unfold render_exception, render_cond. fold dflt_frame. destruct (x_frames x) as [|f0 fs] eqn:EF.
+  - split; [intros _ H; congruence|intros _; eexists; reflexivity].
+  - rewrite bind_ok. split.
+    + intros (tr & HT & HS) _. apply bind_ok in HS. destruct HS as (sn & HS & _). split.
+      * eapply render_snippet_ok. exists sn. exact HS.
+      * eapply render_trace_ok. exists tr. exact HT.
+    + intros H. destruct (H ltac:(discriminate)) as [H1 H2]. eapply render_trace_ok in H2. destruct H2 as (tr & HT).
+      exists tr. split; [exact HT|]. eapply render_snippet_ok in H1. destruct H1 as (sn & HS). rewrite HS. cbn [bind]. eexists. reflexivity.
+Qed.
+(* 4b. the full report exists exactly when tokenize succeeded where it is needed; the simple one always *)
+Theorem render_lines_ok c ind x : (exists ls, render_lines c false ind x = Ok ls) <-> render_cond c x.
+Proof. unfold render_lines. apply render_exception_ok. Qed.
+Theorem render_lines_simple_ok c ind x : exists ls, render_lines c true ind x = Ok ls.
+Proof. eexists. reflexivity. Qed.
+
+(* 4c. undecorated outputs: render succeeds under exactly that condition; decorated: under it, when no line holds ESC *)
+Theorem render_never_fails sty c simple o x :
+  out_ok sty o -> resolvable sty st_error -> resolvable sty st_b ->
+  (simple = false -> render_cond c x) ->
+  (decorated o = true -> forall ls, render_lines c simple (o_indent o) x = Ok ls -> Forall (fun wl => no_esc (snd wl)) ls) ->
+  exists bytes, render c simple o x = Ok bytes.
+Proof.
+  intros Ho Herr Hb Hc Hne.
+  assert (exists ls, render_lines c simple (o_indent o) x = Ok ls) as (ls & HL).
+  { destruct simple; [apply render_lines_simple_ok|apply render_lines_ok, Hc; reflexivity]. }
+  apply (render_never_fails_l sty c simple o x ls Ho Herr Hb HL). intros Hd. apply (Hne Hd ls HL).
+Qed.
+(* and conversely a full render that succeeds had that condition *)
+Theorem render_ok_cond c o x bytes : render c false o x = Ok bytes -> render_cond c x.
+Proof.
+  unfold render. intros H. destruct (render_lines c false (o_indent o) x) as [ls|e] eqn:E; cbn [bind] in H; [|discriminate].
+  apply (render_lines_ok c (o_indent o) x). exists ls. exact E.
+Qed.
